@@ -150,6 +150,22 @@ theorem no_panic_on_wellFormed (s : Source) (name : String) (h : wellFormed s = 
       · exact absurd rfl h2
       · exact absurd rfl (h2 _ hmem)
 
+/-- The name comparison of the struct path is an equivalence relation on names (case-insensitive equality on ASCII): a
+field answers for every spelling of its Go name and two fields whose names differ by case only answer for the same
+names — which is why `Unambiguous` must be demanded and is not automatic. -/
+theorem equalFold_equivalence :
+    (∀ a, equalFold a a = true) ∧
+    (∀ a b, equalFold a b = true → equalFold b a = true) ∧
+    (∀ a b c, equalFold a b = true → equalFold b c = true → equalFold a c = true) := by
+  refine ⟨?_, ?_, ?_⟩
+  · intro a; simp [equalFold]
+  · intro a b h
+    simp only [equalFold, beq_iff_eq] at h ⊢
+    exact h.symm
+  · intro a b c h1 h2
+    simp only [equalFold, beq_iff_eq] at h1 h2 ⊢
+    exact h1.trans h2
+
 /-! ## Witnesses (kernel-evaluated): what happens outside the hypotheses -/
 
 /-- Declaration order decides between a tag match and a name match: the comment "try matching the field name
